@@ -57,6 +57,12 @@ func main() {
 			usage()
 		}
 		os.Exit(replay(os.Args[2]))
+	case "minimise":
+		// internal: minimise the violation stored in os.Args[2], write the result to os.Args[3]
+		if len(os.Args) < 4 {
+			usage()
+		}
+		os.Exit(minimiseChild(os.Args[2], os.Args[3]))
 	case "solo":
 		// internal: run one C18 task alone on a fresh world in this fresh process (pristine solo baseline)
 		os.Exit(scenario.SoloMain(os.Stdin, os.Stdout))
@@ -785,7 +791,81 @@ func check(prop, tier string) int {
 	return 0
 }
 
+type minimiseResult struct {
+	V     scenario.Violation `json:"v"`
+	Execs int                `json:"execs"`
+}
+
+func minimiseChild(in, out string) int {
+	b, err := ioutil.ReadFile(in)
+	if err != nil {
+		return 4
+	}
+	var v scenario.Violation
+	if json.Unmarshal(b, &v) != nil {
+		return 4
+	}
+	s := scenario.Get(v.Property)
+	if s == nil {
+		return 4
+	}
+	if limit := envInt("IONSIM_RLIMIT_AS_MB", 0); limit > 0 {
+		var rl syscall.Rlimit
+		rl.Cur = uint64(limit) << 20
+		rl.Max = uint64(limit) << 20
+		syscall.Setrlimit(syscall.RLIMIT_AS, &rl)
+	}
+	mv, execs := scenario.Minimise(s, v, 2000)
+	ob, _ := json.Marshal(minimiseResult{V: mv, Execs: execs})
+	if ioutil.WriteFile(out, ob, 0644) != nil {
+		return 4
+	}
+	return 0
+}
+
+// safeMinimise minimises in a child process: replaying candidates of a C06-style violation can exhaust memory or hang, and
+// that must not take the parent down. If the child dies or runs out of time the unminimised case is reported.
 func safeMinimise(s scenario.Scenario, v scenario.Violation) (mv scenario.Violation, execs int) {
+	self, err := os.Executable()
+	if err != nil {
+		return v, 0
+	}
+	dir, err := ioutil.TempDir(filepath.Join(verifDir, "work"), "min-")
+	if err != nil {
+		return v, 0
+	}
+	defer os.RemoveAll(dir)
+	in, out := filepath.Join(dir, "in.json"), filepath.Join(dir, "out.json")
+	b, _ := json.Marshal(v)
+	if ioutil.WriteFile(in, b, 0644) != nil {
+		return v, 0
+	}
+	cmd := exec.Command(self, "minimise", in, out)
+	cmd.Env = append(os.Environ(), "GOMAXPROCS=2", "IONSIM_RLIMIT_AS_MB=6144")
+	if cmd.Start() != nil {
+		return v, 0
+	}
+	done := make(chan error, 1)
+	go func() { done <- cmd.Wait() }()
+	select {
+	case err := <-done:
+		if err != nil {
+			return v, 0
+		}
+	case <-time.After(150 * time.Second):
+		cmd.Process.Kill()
+		<-done
+		return v, 0
+	}
+	ob, err := ioutil.ReadFile(out)
+	var mr minimiseResult
+	if err != nil || json.Unmarshal(ob, &mr) != nil || mr.V.Case == nil {
+		return v, 0
+	}
+	return mr.V, mr.Execs
+}
+
+func safeMinimiseInProcess(s scenario.Scenario, v scenario.Violation) (mv scenario.Violation, execs int) {
 	mv = v
 	defer func() {
 		if p := recover(); p != nil {
